@@ -45,12 +45,14 @@ Shapes(k) == IF k \in {"samePriority", "priorityLow", "priorityHigh", "dupANPNam
 Devs(k) == IF k = "ownerLabels" THEN {"value", "extraKey", "extraEmptyKey"} ELSE {"value"}
 Sibs(k) == IF k = "ownerLabels" THEN 0..3 ELSE {0}
 DevFirst(k) == IF k = "ownerLabels" THEN BOOLEAN ELSE {FALSE}
+(* (one set constructor per kind, with that kind's own dimensions as bounds: the plain product of all dimensions exceeds     *)
+(*  TLC's limit of a million elements per set at the thorough sizes)                                                         *)
+CasesOfKind(k) ==
+  {[kind |-> k, n |-> n, i |-> p[1], j |-> p[2], fam |-> f, prios |-> Prios(f, n), sib |-> sb, devFirst |-> df, dev |-> dv, shape |-> sh] :
+      n \in Sizes, p \in UNION {Positions(m) : m \in Sizes}, f \in Families,
+      sb \in Sibs(k), df \in DevFirst(k), dv \in Devs(k), sh \in Shapes(k)}
 Cases ==
-  {[kind |-> k, n |-> n, i |-> p[1], j |-> p[2], fam |-> f, prios |-> Prios(f, n), sib |-> sd[1], devFirst |-> sd[2], dev |-> sd[3], shape |-> sd[4]] :
-      k \in Kinds \ {"none"}, n \in Sizes, p \in UNION {Positions(m) : m \in Sizes}, f \in Families,
-      sd \in {x \in (0..3) \X BOOLEAN \X {"value", "extraKey", "extraEmptyKey"} \X (0..4) :
-                 \* (only one of the two families of dimensions varies for a kind)
-                 (x[4] = 0) \/ (x[1] = 0 /\ x[2] = FALSE /\ x[3] = "value")}}
+  UNION {CasesOfKind(k) : k \in Kinds \ {"none"}}
   \cup {[kind |-> "none", n |-> n, i |-> 1, j |-> 2, fam |-> f, prios |-> Prios(f, n), sib |-> 0, devFirst |-> FALSE, dev |-> "value", shape |-> 0] : n \in Sizes, f \in Families}
   \* a single AdminNetworkPolicy (the sort never calls its comparison)
   \cup {[kind |-> k, n |-> 1, i |-> 1, j |-> 1, fam |-> "asc", prios |-> <<0>>, sib |-> 0, devFirst |-> FALSE, dev |-> "value", shape |-> sh] : k \in {"priorityLow", "priorityHigh", "none"}, sh \in {0, 1}}
